@@ -163,6 +163,10 @@ def step (st : St) (line : String) : St × String :=
         match h.toNat? with
         | some h => run1 st n e (.dropStream h)
         | none => (st, "bad-op")
+      | "dropmany", hs =>
+        match hs.mapM (·.toNat?) with
+        | some hs => run3 st n (applyDropMany e hs)
+        | none => (st, "bad-op")
       | "dgsend", [fid, host, port, d] =>
         match fid.toNat?, ofHex host, port.toNat?, ofHex d with
         | some fid, some host, some port, some d =>
